@@ -149,8 +149,11 @@ def run(res, tier, seed):
         sites = {}
         for l in model[j]:
             if l.startswith("LINT ") and " site=" in l:
-                key = (field(l, "sev"), field(l, "title"), field(l, "at"))
-                sites.setdefault(key, set()).add(field(l, "site"))
+                # the item may be placed at any of the model's alternative locations (F-14)
+                m_ = re.search(r" alts=\[(\S*)\]", l)
+                for at_ in [field(l, "at")] + (m_.group(1).split(",") if m_ else []):
+                    key = (field(l, "sev"), field(l, "title"), at_)
+                    sites.setdefault(key, set()).add(field(l, "site"))
         dups = [k for k, v in seen.items() if v > max(1, len(sites.get(k, ())))]
         if dups and first is None:
             first = {"what": f"the same diagnostic is reported {seen[dups[0]]} times: "
